@@ -206,6 +206,13 @@ pub fn log_to_memory() {
     lock().sink = Sink::Mem(Vec::new());
 }
 
+pub fn peek_memory_log() -> Vec<String> {
+    match &lock().sink {
+        Sink::Mem(v) => v.clone(),
+        _ => Vec::new(),
+    }
+}
+
 pub fn take_memory_log() -> Vec<String> {
     let mut g = lock();
     match std::mem::replace(&mut g.sink, Sink::Off) {
